@@ -84,13 +84,19 @@ Definition half_unit (p : nat) : Q := 1 # (2 * Z.to_pos (pow10 p)).
 Definition close_to (p : nat) (x y : Q) : bool :=
   if Qlt_le_dec (half_unit p) (Qabs (x - y)) then false else true.
 
-(* same tokens in the same order, times within half a unit of the last printed digit; a point
-   tier keeps only the start time *)
-Definition tg_roundtrip_okb (p : nat) (point : bool) (tr out : list entry) : bool :=
+(* same tokens in the same order, times within half a unit of the last printed digit; only a
+   point tier the caller asked for ([forced_point]) may drop the end time (it keeps the start) *)
+Definition tg_roundtrip_okb (p : nat) (forced_point : bool) (tr out : list entry) : bool :=
   list_eqb (fun a b =>
               str_eqb (e_tok a) (e_tok b) && close_to p (e_start a) (e_start b)
-              && (if point then Qeq_bool (e_end b) (e_start b) else close_to p (e_end a) (e_end b)))
+              && (if forced_point then Qeq_bool (e_end b) (e_start b) else close_to p (e_end a) (e_end b)))
            tr out.
+
+(* filling never inserts an empty interval: entries of zero length that carry the fill token are
+   at most as many as the transcript's own entries with that token *)
+Definition no_empty_gapsb (ft : str) (tr out : list entry) : bool :=
+  (length (filter (fun x => str_eqb (e_tok x) ft && Qeq_bool (e_start x) (e_end x)) out)
+   <=? length (filter (fun x => str_eqb (e_tok x) ft) tr))%nat.
 
 (* "unlabelled gaps filled on request": the result tiles [xmin, xmax] *)
 Fixpoint contiguous (t : Q) (xmax : Q) (l : list entry) : Prop :=
